@@ -41,7 +41,7 @@ func c33(c *an.Check) {
 	} else {
 		sf := storeFns[0]
 		loadIs := func(s *an.State, f *types.Var, pred func(s *an.State, u *ssa.UnOp) bool) bool {
-			for _, b := range sf.Blocks {
+			for _, b := range an.ScanBlocks(sf) {
 				for _, ins := range b.Instrs {
 					if u, ok := ins.(*ssa.UnOp); ok && an.IsFieldLoad(u, f) && pred(s, u) {
 						return true
@@ -88,7 +88,7 @@ func c33(c *an.Check) {
 			Reqs: []an.Req{
 				{Name: "a reference is held, and (for removal) no link is left", Holds: func(s *an.State, at ssa.Instruction) bool {
 					held := false
-					for _, b := range fn.Blocks {
+					for _, b := range an.ScanBlocks(fn) {
 						for _, ins := range b.Instrs {
 							if u, ok := ins.(*ssa.UnOp); ok && an.IsFieldLoad(u, rigidF) && s.NonNil(u) {
 								held = true
@@ -147,7 +147,7 @@ func c33(c *an.Check) {
 	for _, g := range p.PkgFuncs(hoPkg) {
 		g := g
 		var acq []*ssa.Call
-		for _, b := range g.Blocks {
+		for _, b := range an.ScanBlocks(g) {
 			for _, ins := range b.Instrs {
 				if call, ok := ins.(*ssa.Call); ok && call.Call.IsInvoke() && call.Call.Method.Name() == "AddReference" && len(call.Call.Args) == 2 && isFalseConst(call.Call.Args[1]) {
 					acq = append(acq, call)
@@ -215,7 +215,7 @@ func establishLinkValuesAreLinks(c *an.Check) {
 				continue
 			}
 			n++
-			for _, b := range g.Blocks {
+			for _, b := range an.ScanBlocks(g) {
 				if ret, ok := b.Instrs[len(b.Instrs)-1].(*ssa.Return); ok {
 					k, isK := ret.Results[2].(*ssa.Const)
 					if !isK || k.Value == nil || k.Value.String() != "false" {
